@@ -228,8 +228,9 @@ impl<'a, 'b> G<'a, 'b> {
                 self.forms.push(if n > 1 { "declaration with several `<--` initialisers" } else { "declaration with `<--` initialiser" });
                 vec![Stmt::Decl { id, kind: DeclKind::Signal(SigKind::Intermediate, vec![]), syms, init_op: AssignOp::Signal }]
             }
-            // component input
-            5 if in_loop.is_none() => {
+            // component input (with the declaration moved to the top of the template the block that holds
+            // the `<--` port assignment may contain nothing else, also inside a loop or branch)
+            5 => {
                 let c = self.fresh("comp");
                 let k = self.num(2);
                 let init = Expr::Call { id: self.ids.next(), name: "Sub".into(), args: vec![k] };
@@ -241,11 +242,30 @@ impl<'a, 'b> G<'a, 'b> {
                 };
                 let id = self.ids.next();
                 let lhs = Expr::Var { id: self.ids.next(), name: c.clone(), access: vec![Access::Field("a".into())] };
-                let rhs = self.rhs(2);
+                // a right-hand side without any signal of the template in a third of the cases
+                let rhs = if self.t.chance(85) {
+                    let k = self.t.below(9) as u64;
+                    let l = self.var("n");
+                    let r = self.num(k);
+                    infix(&mut self.ids, Op::Add, l, r)
+                } else {
+                    self.rhs(2)
+                };
                 self.expected.push(Expected { anchor: id, signal: Some(c.clone()), access: ".a".into() });
                 let id2 = self.ids.next();
                 let lhs2 = Expr::Var { id: self.ids.next(), name: c, access: vec![Access::Field("b".into())] };
                 let rhs2 = self.rhs(1);
+                if in_loop.is_some() || self.t.chance(60) {
+                    // declaration to the top; only the `<--` port assignment stays in place
+                    decls.push(d);
+                    // (at the top of the template no loop variable is in scope)
+                    let _ = rhs2;
+                    let first_input = self.inputs[0].clone();
+                    let rhs2 = self.var(&first_input);
+                    decls.push(Stmt::Assign { id: id2, lhs: lhs2, op: AssignOp::Constrain, rhs: rhs2, reversed: false });
+                    self.forms.push("component input, alone in its block");
+                    return vec![Stmt::Assign { id, lhs, op: AssignOp::Signal, rhs, reversed: false }];
+                }
                 self.forms.push("component input");
                 vec![d, Stmt::Assign { id, lhs, op: AssignOp::Signal, rhs, reversed: false }, Stmt::Assign { id: id2, lhs: lhs2, op: AssignOp::Constrain, rhs: rhs2, reversed: false }]
             }
@@ -319,6 +339,12 @@ impl<'a, 'b> G<'a, 'b> {
                 let params = if tname == "One" { vec![] } else { vec![k] };
                 self.forms.push(if nsig == 2 { "anonymous component, two `<--` inputs" } else { "anonymous component, one `<--` input" });
                 let anon = Expr::Anon { id: call_id, name: tname, params, inputs, names: Some(names) };
+                let anon = if self.t.chance(50) {
+                    self.forms.push("parallel anonymous component with named `<--` inputs");
+                    Expr::Parallel { id: self.ids.next(), e: Box::new(anon) }
+                } else {
+                    anon
+                };
                 let lhs = self.var(&s);
                 let id = self.ids.next();
                 // `s <== T()(…)` is itself a constraint statement mentioning s
